@@ -40,6 +40,8 @@ def apply_canary(name):
 
 def jobs(tier, seed):
     out = [{"name": "array-caches", "kind": "arrays", "cost": 20}]
+    if tier == "thorough":
+        out.append({"name": "array-caches-grid1000", "kind": "arrays1000", "cost": 500})
     for kern in ("semi", "fully"):
         for clear in (False, True):
             # two successive updates square the path count: n = 3 is out of reach (probed: > 25 min for one job); the thorough
@@ -92,6 +94,8 @@ def _same_array(what, a, b, pending):
     if a.shape != b.shape:
         raise Mismatch(what + ":shape", False)
     for idx in np.ndindex(a.shape):
+        if a.shape[-1] >= 1000 and idx[-1] >= 10:
+            continue          # grid-1000 histories: the first ten grid entries of every row are compared
         _same_scalar(f"{what}{list(idx)}", a[idx], b[idx], pending)
 
 
@@ -253,6 +257,8 @@ def work(job):
     CTX.sentinel_mode = "assume"
     if job["kind"] == "arrays":
         funcs = _arrays(res)
+    elif job["kind"] == "arrays1000":
+        funcs = _arrays(res, big=True)
     else:
         funcs = _sampler(res, job)
     res["functions"] = funcs
@@ -276,9 +282,23 @@ ARRAY_CALLS = [("S", "R"), ("S", "RR"), ("S", "RQ"), ("S", "QR"), ("S", "RRQ"), 
                ("C", "RQ"), ("C", "QR"), ("C", "RR"), ("C", "QQ"), ("C", "RT")]
 
 
-def _arrays(res):
+def _big_arr(tag, G=1000):
+    """1 x 1000 array: constant background, two symbolic entries (the grid size at which the FFT path and any size-gated
+    shortcut are taken)"""
+    a = np.empty((1, G), dtype=object)
+    for g in range(G):
+        a[0, g] = Log(V(1))
+    for j, g in enumerate((1, 4) if tag == "R" else (0, 3) if tag == "Q" else (2, 5)):
+        a[0, g] = Log(V.var(f"{tag}_0_{g}"))
+    return a
+
+
+BIG_CALLS = [("C", "RQ"), ("S", "RQ"), ("C", "QR")]      # each 1000-point symbolic convolution costs minutes: the shortest history with a hit after S
+
+
+def _arrays(res, big=False):
     import phyclone.tree.utils as tu
-    arrs = {k: _sym_arr(k, 1, 3) for k in "RQT"}
+    arrs = {k: (_big_arr(k) if big else _sym_arr(k, 1, 3)) for k in "RQT"}
 
     def run():
         # every order of every 4-subset of a fixed family of calls would be 17160 histories; use all orders of each
@@ -286,6 +306,8 @@ def _arrays(res):
         hist = [list(ARRAY_CALLS), list(reversed(ARRAY_CALLS))]
         for i in range(0, len(ARRAY_CALLS) - 3):
             hist.extend(list(p) for p in itertools.permutations(ARRAY_CALLS[i:i + 4]))
+        if big:
+            hist = [list(BIG_CALLS)]
         for h in hist:
             patcher.reset_caches()
             sh = Shadow()
